@@ -167,6 +167,8 @@ def analysis_check(pid, tier, seed, *, items, want, builders, N, variants=None, 
     for tid, e in errors.items():
         if "not encodable" in e:
             notes_all["not_encodable"] = notes_all.get("not_encodable", 0) + 1
+        elif e.startswith("tlc timeout"):
+            notes_all["tlc_timeouts"] = notes_all.get("tlc_timeouts", 0) + 1
         else:
             run.error(f"{tid}: {e}")
 
